@@ -131,6 +131,7 @@ pub fn case_rng(prop: &str, seed: u64, idx: u64) -> Rng {
 pub fn run_one(def: &PropDef, tier: Tier, seed: u64, idx: u64, verbose: bool) -> Result<Case, String> {
     let mut c = Case { idx, tier, rng: case_rng(def.id, seed, idx), verbose, evals: 0, distinct: vec![], viols: vec![], counters: BTreeMap::new(), sample: None };
     crate::alloc::CASE_IDX.with(|x| x.set(idx));
+    crate::rd::CFG_HIST.with(|x| x.set(mix(mix(seed, hash_str(def.id)), idx ^ 0xC0F1_6000)));
     let _ = crate::obs::take_last_panic();
     let r = catch_unwind(AssertUnwindSafe(|| (def.run)(&mut c)));
     match r {
